@@ -1222,6 +1222,11 @@ class Monitor:
                 if 'head' in self.on and self.env.now != t_start + d:
                     self.bad('C01.run', f'simulate({d}) started at {t_start} ended with the clock at {self.env.now}, '
                              f'expected {t_start + d}')
+                if 'head' in self.on:
+                    due = [e for e in self.env._events if not e.cancelled and e.time <= t_start + d]
+                    if due:
+                        self.bad('C01.run', f'simulate({d}) from {t_start} returned but {len(due)} live event(s) due no later '
+                                 f'than {t_start + d} did not run, e.g. one due at {due[0].time} ({due[0].message!r})')
                 for f in (self.m.between.get(i, []) if i < len(self.spec['T']) - 1 else []):
                     f()
                 self.adopt_late_devices()
